@@ -51,6 +51,11 @@ let run file =
            if ms > 5000 then report "PROPFAIL" "rule=timeout_honoured" (Printf.sprintf "open with a 150 ms timeout took %d ms" ms);
            flag ("refused-" ^ m ^ "-" ^ how)
          end else report "PROPFAIL" "rule=open_result" ("unexpected open result " ^ res)
+       | ["refused"; m; kind] ->
+         (* a damaged file: the Open must be refused; whatever it answers, it holds nothing afterwards (the model's holder set is unchanged),
+            so a lock it leaves behind shows as a timeout of a later open with no live holder (rule close_releases_lock) *)
+         if res = "ok" && kind <> "truncated" then report "PROPFAIL" "rule=refused_open" ("Open accepted a " ^ kind ^ " file");
+         flag ("refused-open-" ^ m ^ "-" ^ kind)
        | ["close"; a] ->
          let (h', mr) = Lock.lstep !held_model (Lock.LClose (id_of a)) in
          held_model := h';
